@@ -112,7 +112,8 @@ func (e *integEngine) checkC14(x *integExpect) {
 				c.Violate("C14", "down-more-than-once", "context %s: down command %d ran %d times (Finish called %d time(s))", cs.Name, i, n, e.finishCalls())
 			case len(users) == 0 && n > 0:
 				c.Violate("C14", "down-for-unused-context", "context %s was never used but its down command %d ran", cs.Name, i)
-			case len(users) > 0 && n == 0 && e.finished && !upFailed:
+			case len(users) > 0 && n == 0 && e.finished && !upFailed && !cancelled:
+				// (after a Cancel a run may have been refused before it touched its context)
 				c.Violate("C14", "down-not-run", "context %s was used by %d task execution(s) but its down command %d did not run at Finish", cs.Name, len(users), i)
 			}
 		}
